@@ -22,3 +22,10 @@ LEVEL_TEXT = {
 }
 
 NOT_APPLICABLE = {}
+
+LEVEL_TEXT["C18"] = ("Theorems (every n, every mask) that each Coalition operator is the corresponding finite-set operation on {i | testBit i}, that size = card, "
+                     "players is the sorted duplicate-free member list, from_players∘players = id, that the object-style and the id-array-style enumerations of "
+                     "sub- and super-coalitions are duplicate-free and list exactly the subsets / supersets within n (hence agree), the relation table of bounds.py, "
+                     "and that is_superadditive / is_monotone_decreasing / check_supermodularity decide exactly their definitions (with the tolerance); tied to the "
+                     "code by exhaustive comparison over all coalitions n ≤ 8, all pairs n ≤ 5, all 6912 integer games of a small lattice and tolerance-boundary games.")
+
